@@ -25,7 +25,7 @@ func init() { core.Register(c08{}) }
 func (c08) ID() string    { return "C08" }
 func (c08) Level() string { return "exploration" }
 func (c08) Rule() string {
-	return "two case kinds. (sched) small programs - 2 clients x 1..2 ops or 3 clients x 1 op, op in {Put k, Delete k, Get k, and a 40 KiB Put that makes the active file rotate inside the other clients' windows} on one shared, pre-populated key, optionally plus a client running Merge - are executed under the pause scheduler: every client goroutine blocks at each engine hook point (put.afterAppend, get.afterIndex, delete.afterCheck, delete.afterAppend, merge.afterRotate, merge.record, merge.beforeMarker, merge.done) until granted; a depth-first search over the grant choices enumerates every ordering of the hook-delimited segments (a granted client that neither parks nor returns within 25 ms is taken to be blocked on an engine lock and another client is granted: this only steers exploration); each execution yields a history. (stress) 2..16 clients x 30..80 ops over 1..4 keys, small DataFileSize, a concurrent Merge client in a third of the cases, stateless yield/sleep injection at the same hook points, -race build. Every history is recorded at the client boundary (call stamp before invoking, return stamp after the reply, one monotonic clock; every Put writes a unique value so a read identifies its write) and, completed by one final Get per key, is checked with porcupine v1.3.0 against a per-key register model (partitioned by key, 60 s timeout -> inconclusive); a returned error from Put/Delete/Get other than key-not-found is a violation; after quiescence the database is closed and reopened and every key must read what the final live Get read. Non-trivial: sched program with >=3 distinct realised interleavings, stress history in which >=2 clients' operations on one key overlapped in time; distinct = hash of the realised grant sequence resp. of the history"
+	return "two case kinds. (sched) small programs - 2 clients x 1..2 ops or 3 clients x 1 op, op in {Put k, Delete k, Get k, and a 40 KiB Put that makes the active file rotate inside the other clients' windows} on one shared, pre-populated key, optionally plus a client running Merge - are executed under the pause scheduler: every client goroutine blocks at each engine hook point (put.afterAppend, get.afterIndex, delete.afterCheck, delete.afterAppend, merge.afterRotate, merge.record, merge.beforeMarker, merge.done) until granted; a depth-first search over the grant choices enumerates every ordering of the hook-delimited segments (a granted client that neither parks nor returns within 25 ms is taken to be blocked on an engine lock and another client is granted: this only steers exploration); each execution yields a history. (stress) 2..16 clients x 12..80 ops over 1..4 keys (at most ~160 operations per key and history), small DataFileSize, a concurrent Merge client in a third of the cases, stateless yield/sleep injection at the same hook points, -race build. Every history is recorded at the client boundary (call stamp before invoking, return stamp after the reply, one monotonic clock; every Put writes a unique value so a read identifies its write) and, completed by one final Get per key, is checked with porcupine v1.3.0 against a per-key register model (partitioned by key, 60 s timeout -> inconclusive); a returned error from Put/Delete/Get other than key-not-found is a violation; after quiescence the database is closed and reopened and every key must read what the final live Get read. Non-trivial: sched program with >=3 distinct realised interleavings, stress history in which >=2 clients' operations on one key overlapped in time; distinct = hash of the realised grant sequence resp. of the history"
 }
 func (c08) Assumptions() []string {
 	return []string{"porcupine v1.3.0 decides linearizability of the recorded history", "schedule control exists only at the hook points; pre-emptions inside a segment are reached by the stress part only",
@@ -86,8 +86,16 @@ func (c08) Cases(tier string, seed uint64) []core.Case {
 	}
 	for i := 0; i < ns; i++ {
 		cfg := core.Config{IndexType: core.IndexTypes[i%3], ShardNum: []int{1, 4, 16}[r.Intn(3)], FileIO: byte((i / 3) % 2), DataFileSize: []int64{4 << 10, 16 << 10, 64 << 10}[r.Intn(3)]}
+		cl := []int{2, 3, 4, 8, 16}[r.Intn(5)]
+		nops := r.Range(30, 80)
+		nkeys := r.Range(1, 4)
+		// many short histories rather than few enormous ones: the cost of the linearizability
+		// search grows steeply with the number of overlapping operations per key
+		if lim := 160 * nkeys / cl; nops > lim {
+			nops = max(lim, 12)
+		}
 		out = append(out, core.Case{Index: len(out), ID: fmt.Sprintf("c08-stress-%04d", i), Seed: r.U64(),
-			Data: c08Case{Kind: "stress", Cfg: cfg, Clients: []int{2, 3, 4, 8, 16}[r.Intn(5)], NOps: r.Range(30, 80), NKeys: r.Range(1, 4), Merge: i%3 == 0}})
+			Data: c08Case{Kind: "stress", Cfg: cfg, Clients: cl, NOps: nops, NKeys: nkeys, Merge: i%3 == 0}})
 	}
 	return out
 }
